@@ -345,6 +345,7 @@ def run(tier):
     q.push(); q.add(k0 >= 0, e0 <= 0); r_prog = q.check(); q.pop()
     q.push(); q.add(k0 == rx.ERR); r_err_reach = q.check(); q.pop()
     ck.add_queries("z3", q.n, q.secs)
+    q.report(ck, "lexer totality")
     ck.states += q.n
     has_err = PlyLexer("f").lex.lexerrorf is not None
     ok_l = r_total == "unsat" and r_prog == "unsat" and has_err
